@@ -2,6 +2,7 @@ package simnet
 
 import (
 	"net"
+	"runtime"
 	"time"
 
 	"gitee.com/Trisia/gotlcp/vs"
@@ -14,6 +15,9 @@ const (
 	FDelay   = "delay"   // extra delay P (ns): lets later datagrams overtake
 	FCorrupt = "corrupt" // XOR byte at offset P (mod len) with Mask
 	FTrunc   = "trunc"   // keep the first P bytes
+	// FRewrite applies the structured rewrite P (RewritePayload: 3 ChangeCipherSpec lengthened, 4 Certificate list
+	// cut to one, 5 Certificate list emptied) to the first epoch-0 record of the datagram it applies to
+	FRewrite = "rewrite"
 )
 
 // DFault is one planned fault on the N-th datagram (0-based) sent in direction Dir.
@@ -114,6 +118,9 @@ type PacketConn struct {
 	closed bool
 	rdl    time.Time
 	Sent   int
+	// MaxDepth is the deepest call stack (in frames, capped at 512) from which ReadFrom was called: an endpoint
+	// that recurses once per ignored datagram shows up here
+	MaxDepth int
 }
 
 // Listen creates an endpoint. dir tags datagrams sent from it (DirC2S for the
@@ -159,6 +166,10 @@ func (p *PacketConn) due() bool {
 func (p *PacketConn) ReadFrom(b []byte) (int, net.Addr, error) {
 	if !vs.InSim() {
 		return 0, nil, net.ErrClosed
+	}
+	var pcs [512]uintptr
+	if d := runtime.Callers(1, pcs[:]); d > p.MaxDepth {
+		p.MaxDepth = d
 	}
 	ok := vs.Block(p.due, p.rdl)
 	if p.closed {
@@ -270,6 +281,12 @@ func (n *Net) route(d *Dgram) {
 		}
 		n.fired[i] = true
 		switch f.Kind {
+		case FRewrite:
+			if nd := rewriteDgram(d.Data, int(f.P)); nd != nil {
+				d.Data = nd
+			} else {
+				n.fired[i] = false
+			}
 		case FDrop:
 			d.Dropped = true
 		case FDup:
@@ -350,3 +367,23 @@ func (p *PacketConn) SetWriteDeadline(t time.Time) error { return nil }
 
 //go:norace
 func (p *PacketConn) IsClosed() bool { return p.closed }
+
+//go:norace
+func rewriteDgram(d []byte, how int) []byte {
+	for q := 0; q+13 <= len(d); {
+		n := int(d[q+11])<<8 | int(d[q+12])
+		if q+13+n > len(d) {
+			return nil
+		}
+		if d[q+3] == 0 && d[q+4] == 0 {
+			if np := RewritePayload(d[q], d[q+13:q+13+n], how, 12); np != nil {
+				out := clone(d[:q+13])
+				out[q+11], out[q+12] = byte(len(np)>>8), byte(len(np))
+				out = append(out, np...)
+				return append(out, d[q+13+n:]...)
+			}
+		}
+		q += 13 + n
+	}
+	return nil
+}
